@@ -267,6 +267,11 @@ class C16(Prop):
             shape += "-" + "+".join(reg) if reg else ""
         demand = predict_demand(c)
         budget = "over" if any(1 + v > c["limit"] for v in demand.values()) else "within"
+        if budget == "within" and clause.endswith("exhaust-limit") and any(
+                f[2] == "schedule" and f[3] in ("failstop", "partial") for f in c["faults"]):
+            # a refusal the budget does not explain, in the presence of the trigger of finding 2 (data lost while a job is
+            # in its schedule phase: the recovery workflow's transfer step then receives the producer's OLD token)
+            loss += "@schedule"
         return f"{clause}/{shape}/{loss}/{budget}"
 
     def shrink(self, c):
